@@ -66,7 +66,9 @@ impl CsvFile {
         }
         s.push('\n');
         for r in &self.rows {
-            s.push_str(&r.join(","));
+            // RFC 4180 quoting for cells that need it (memos with commas, quotes, line breaks)
+            let cells: Vec<String> = r.iter().map(|c| if c.contains(',') || c.contains('"') || c.contains('\n') { format!("\"{}\"", c.replace('"', "\"\"")) } else { c.clone() }).collect();
+            s.push_str(&cells.join(","));
             s.push('\n');
         }
         s
@@ -340,7 +342,7 @@ pub fn generate(seed: u64, k_seeds: usize) -> Sc {
                 }
             }
             if r.chance(1, 4) {
-                row[C_MEMO] = (*r.pick(&["note", "drip", "vest", "rebalance to target", "tax loss harvest - see advisor notes"])).to_string();
+                row[C_MEMO] = (*r.pick(&["note", "drip", "vest", "rebalance to target", "tax loss harvest - see advisor notes", "lot 3, per advisor", "said \"hold\"", "line one\nline two", "r\u{e9}\u{e9}quilibrage \u{2014} \u{65e5}\u{672c}"])).to_string();
             }
             all_rows.push((day, row));
         }
